@@ -49,6 +49,18 @@ CLAIMS = {
    text="Real NotifyServer.handle_notify and NotifyClient.connect/notify wired through harness-owned streams (real asyncio.StreamReader, recording writers); Hypothesis draws worker count, announcement sequences and the chunking of every byte stream (splits inside/across ids, coalescing, interleaved senders, peer closing mid-id). Oracle: ids looked up at each receiver == ids completely transmitted by the other workers, intact, once, per-sender order, no echo; one local fan-out per existing event.",
    note="TCP modelled as reliable ordered byte streams; storage side faked (get_event / notify_all_connected recorded).",
    tech="property-based testing with harness-owned transport schedule (chunking) and multiset/order oracle"),
+ "C04": dict(cat="exploration",
+   text="Subscription ids from st.text() and non-string JSON values: every frame passed to ws_send parses strictly and has one of the five shapes with the client's id; accepted events with arbitrary Unicode content and tag structures (numbers, booleans, null, nested arrays where accepted) served stored (REQ), live (watcher) and over HTTP /e/<id> (ASGI conductor) on both storage encodings must equal the accepted event field-for-field (types included) and verify; differential of the hand-written serializer against the generic one.",
+   note="Events are signed over aionostr's serialization (admission is C03's subject); lone surrogates excluded.",
+   tech="property-based testing: round-trip and serializer-differential oracles"),
+ "C13": dict(cat="exploration",
+   text="Protocol model of a connection checked (a) exhaustively over every sequence up to depth 4/5 of a 13-message alphabet (REQ with valid/empty/invalid/partly invalid filters, replacement, over-limit, non-string id, CLOSE, matching EVENTs) with subscription_limit=3, and (b) on random deeper two-connection schedules with recv latency, parked/released query jobs and REQ+CLOSE / REQ+REQ bursts; silence is detected as a task left waiting on a lock nobody holds.",
+   note="LMDB deterministic mode; SQL on a file database with real aiosqlite threads (interleavings inside one DB call not owned by the harness).",
+   tech="bounded-exhaustive enumeration + property-based schedules against a protocol state-machine model"),
+ "C19": dict(cat="exploration",
+   text="Typed-mutation grammar fuzzing of the connection handler (every JSON type at every position of commands, events and filters; dropped/duplicated/reordered elements; invalid JSON; 1e5-deep nesting; 1 MB strings; impatient REQ/CLOSE bursts; rate limiting and auth on/off) with probes on the hostile connection and on a bystander: no exception escapes, kept-open connections still answer, bystanders unaffected, after disconnect no subscriptions/tasks/locks are left.",
+   note="Virtual clock (throttling only advances time); any relay-initiated close counts as clean handling.",
+   tech="grammar-based fuzzing (Hypothesis) with liveness probes and resource-leak oracle"),
 }
 NA_REASON = "check under construction in this session; will be claimed when it is quiet and sensitive"
 
